@@ -136,6 +136,8 @@ jose_jws_hdr(const json_t *sig)
         p = json_deep_copy(p);
     else if (json_is_string(p))
         p = jose_b64_dec_load(p);
+    else
+        p = NULL; /* Borrowed reference: must not be released by json_auto_t. */
 
     if (!json_is_object(p))
         return NULL;
